@@ -8,6 +8,7 @@ import AscentVerif.Driver.EngDs
 import AscentVerif.Driver.TrRelInd
 import AscentVerif.Driver.EqRel
 import AscentVerif.Driver.Check
+import AscentVerif.Driver.Surface
 open AscentVerif AscentVerif.Driver
 open AscentVerif.Driver.Trp (handleTrp TrpStore)
 
@@ -61,6 +62,10 @@ def step (st : St) (line : String) : St × String :=
   | some (.atom "eqtwin" :: rest) => (st, (handleEqTwin rest).getD "bad-op")
   | some (.atom "chk" :: rest) => (st, (handleChk rest).getD "bad-op")
   | some (.atom "chkc" :: rest) => (st, (handleChkCount rest).getD "bad-op")
+  | some (.atom "eng" :: .atom "sprog" :: rest) =>
+    match handleSProg st.eng rest with
+    | some (s', out) => ({ st with eng := s' }, out)
+    | none => (st, "bad-op")
   | some (.atom "eng" :: rest) =>
     match handleEng st.eng rest with
     | some (s', out) => ({ st with eng := s' }, out)
